@@ -549,6 +549,13 @@ impl NamingActor {
             for instance_key in keys {
                 let service_key = instance_key.get_service_key();
                 let short_key = instance_key.get_short_key();
+                // a connection that ends takes only its ephemeral instances along; a persistent instance it had
+                // re-registered belongs to the raft state and merely loses its gRPC owner
+                if let Some(service) = self.service_map.get_mut(&service_key) {
+                    if service.release_persistent_owner(&short_key) {
+                        continue;
+                    }
+                }
                 self.remove_instance(&service_key, &short_key, Some(client_id));
             }
         }
